@@ -1,3 +1,3 @@
 From Coq Require Import Extraction ExtrOcamlBasic ZArith List.
 From C07 Require Import Model GenRandom.
-Extraction "Model.ml" divRoundUp divRoundUp_u clampZ pack channel pcg_stream pcg_nth color_g gen_stream Z.div Z.modulo Z.add Z.mul Z.opp.
+Extraction "Model.ml" divRoundUp divRoundUp_u divRoundUp_n clampZ pack channel pcg_stream pcg_nth color_g gen_stream Z.div Z.modulo Z.add Z.mul Z.opp.
